@@ -830,8 +830,10 @@ def rule_delimcount(ctx, rep, rid="R-C10-delimcount"):
         for i in b.reachable(0):
             si = switch_info(b, i)
             if si and si["kind"] == "disc" and si.get("adt") == TT:
-                for labs in si["edges"].values():
-                    found |= {l for l in labs if l in DELIMS}
+                otherwise = b.term(i)[3]
+                for succ, labs in si["edges"].items():
+                    if succ != otherwise:          # only the variants an arm names; `_ =>` covers the brackets without looking at them
+                        found |= {l for l in labs if l in DELIMS}
         if found:
             n += 1
             r.finding("%s|looks at %s" % (nb.replace("ironplc_parser::", ""), ",".join(sorted(found))), "%s:%d" % (b.f["file"], b.f["line"]),
